@@ -14,7 +14,7 @@ for P in sys.argv[1:]:
         kf['findings'] = [f for f in kf['findings'] if f['id'] not in ids] + new
         st.unlink()
     rep = (V / 'agents_out' / f'{P}.md').read_text()
-    sec = rep[rep.lower().find('proposed manifest'):]
+    low = rep.lower(); idx = max(low.find('proposed manifest'), low.find('manifest proposal'), low.find('manifest text'), low.find('manifest entry')); sec = rep[idx:] if idx >= 0 else rep[low.find('level_claimed'):]
     sec = re.sub(r'\s*\n\s*', ' ', sec)
     i1 = sec.find('level_claimed'); i2 = sec.find('level_note')
     m1 = re.search(r'"(.*?)"', sec[i1:i2 if i2 > i1 else None], flags=re.S) if i1 >= 0 else None
